@@ -158,3 +158,45 @@ def rng_uniform(eng, recv, args, node):
 REG.dep_classes['Rng'] = {'random': rng_random, 'normal': rng_normal, 'poisson': rng_poisson, 'uniform': rng_uniform}
 
 REG.value_classes = {'Rng', 'NpArr'}      # freshly created value objects: their fields are not part of any frame
+
+
+# ---- networkx: graph construction / queries used by the planner (assumed) -----------------------------------------------------
+REG.entities['NodeAttr'] = {'comp': 'num', 'task_data': 'num', 'has:task_data': 'bool'}
+REG.entities['EdgeAttr'] = {'transfer_data': 'num'}
+NODEATTR = z3.Function('nx_nodeattr', I, I, I)         # (graph, node) -> attribute dict object
+EDGEATTR = z3.Function('nx_edgeattr', I, I, I, I)      # (graph, u, v) -> attribute dict object
+NUMNODES = z3.Function('nx_numnodes', I, I)
+AT = z3.Function('at', I, I, I)
+
+
+def nx_topological_sort(eng, recv, args, node):
+    """every node exactly once, every edge forward"""
+    g = args[0].t
+    x = z3.Int('nx_tx')
+    l = ListObj(z3.Lambda([x], z3.If(NODE(g, x), 1, 0)), NUMNODES(g), 'any')
+    eng.st.assume(NUMNODES(g) >= 0)
+    i, j = z3.Int(fresh_name('ti')), z3.Int(fresh_name('tj'))
+    seq = l.seq
+    eng.st.assume(z3.ForAll([i, j], z3.Implies(z3.And(0 <= i, i < j, j < l.n), z3.And(
+        AT(seq, i) != AT(seq, j), z3.Not(EDGE(g, AT(seq, j), AT(seq, i)))))))
+    eng.st.assume(z3.ForAll([i], z3.Implies(z3.And(0 <= i, i < l.n), NODE(g, AT(seq, i)))))
+    a, b = z3.Int(fresh_name('ea')), z3.Int(fresh_name('eb'))
+    eng.st.assume(z3.ForAll([a, b], z3.Implies(EDGE(g, a, b), z3.And(NODE(g, a), NODE(g, b)))))
+    return l
+
+
+def nx_relabel_nodes(eng, recv, args, node):
+    """the image graph under an injective mapping (a dict node -> new node)"""
+    g, mp = args[0].t, args[1]
+    g2 = Sym('ref', z3.Int(fresh_name('relabelled')), 'Graph')
+    eng.st.assume(g2.t > 0)
+    a, b = z3.Int(fresh_name('ra')), z3.Int(fresh_name('rb'))
+    M = lambda v: z3.Select(mp.vals, v)
+    eng.st.assume(z3.ForAll([a, b], z3.Implies(z3.And(z3.Select(mp.keys, a), z3.Select(mp.keys, b)),
+                                               EDGE(g2.t, M(a), M(b)) == EDGE(g, a, b))))
+    eng.st.assume(z3.ForAll([a], z3.Implies(z3.Select(mp.keys, a), NODE(g2.t, M(a)) == NODE(g, a))))
+    return g2
+
+
+REG.dep_classes['module:nx.algorithms'] = {'topological_sort': nx_topological_sort}
+REG.dep_classes['module:nx'] = {'relabel_nodes': nx_relabel_nodes}
